@@ -11,7 +11,7 @@ import (
 
 // Points are the hook points compiled into /repo under the "verif" tag.
 var Points = []string{
-	"socket.OnClose.window", "socket.Close.window", "socket.Close.beforeDrainWait", "socket.onDrain.afterShift", "socket.doFlush.batchTaken", "socket.readyState",
+	"socket.OnClose.window", "socket.Close.window", "socket.Close.beforeDrainWait", "socket.onDrain.afterShift", "socket.doFlush.batchTaken", "map.slowPath", "socket.readyState",
 	"server.Handshake.afterNewSocket", "server.onWebSocket.beforeMaybeUpgrade",
 	"socket.MaybeUpgrade.enter", "socket.upgrade.check.window",
 	"polling.send.start", "ws.send.start", "wt.send.start",
